@@ -163,6 +163,15 @@ var vC05Dates = []struct {
 	{"datetime_two", Datetime, "datetime='/,T'", "2006/01/02T15:04:05"},
 	{"datetime_three", Datetime, "datetime='/, ,.'", "2006/01/02 15.04.05"},
 	{"datetime_msg", Datetime, "datetime='.,_,:'|bad time", "2006.01.02_15:04:05"},
+	// round 4: a quoted separator is taken literally, whatever it contains (for the one-separator rules a comma is
+	// part of the separator, not a delimiter between separators)
+	{"date_comma", Date, "date=','", "2006,01,02"},
+	{"year2month_comma", Year2Month, "year2month=','", "2006,01"},
+	{"date_comma_blank", Date, "date=', '", "2006, 01, 02"},
+	{"date_two_chars", Date, "date='/-'", "2006/-01/-02"},
+	{"year2month_blank", Year2Month, "year2month=' '", "2006 01"},
+	{"date_dot_msg", Date, "date='.'|bad date", "2006.01.02"},
+	{"year2month_comma_msg", Year2Month, "year2month=',,'|bad month", "2006,,01"},
 }
 
 func vC05Date(i int) {
@@ -302,6 +311,13 @@ func H_C05_date_datetime_one()      { vC05Date(9) }
 func H_C05_date_datetime_two()      { vC05Date(10) }
 func H_C05_date_datetime_three()    { vC05Date(11) }
 func H_C05_date_datetime_msg()      { vC05Date(12) }
+func H_C05_date_date_comma()        { vC05Date(13) }
+func H_C05_date_year2month_comma()  { vC05Date(14) }
+func H_C05_date_date_comma_blank()  { vC05Date(15) }
+func H_C05_date_date_two_chars()    { vC05Date(16) }
+func H_C05_date_year2month_blank()  { vC05Date(17) }
+func H_C05_date_date_dot_msg()      { vC05Date(18) }
+func H_C05_date_year2month_cc_msg() { vC05Date(19) }
 
 // in / unique on float32 values: compared by the canonical (32-bit) decimal rendering
 func H_C05_in_float32() {
